@@ -795,6 +795,12 @@ func (c *Ctx) judgeSink(s *sink) (ok bool, trivial bool, detail string) {
 		}
 		req := affineOf(lenCall, 0)
 		req.K -= cst
+		// the slice was just extended: len(append(x, e1..ek)) >= k
+		if ap, isAp := ir.StripConv(lenCall.Call.Args[0]).(*ssa.Call); isAp && ir.CallID(ap) == "builtin.append" && len(ap.Call.Args) == 2 {
+			if elems, isLit := variadicElems(ap.Call.Args[1]); isLit && int64(len(elems)) >= cst {
+				return true, false, ""
+			}
+		}
 		if ok2, why := c.entailedHere(s.fn, blk, req); !ok2 {
 			return false, false, "no dominating check establishes len >= " + strconv.FormatInt(cst, 10) + ": " + why
 		}
@@ -854,6 +860,16 @@ func (c *Ctx) RuleT(rulePrefix string, in func(*ssa.Function) bool, kinds map[st
 		key := ordinalKey(counts, name(s.fn)+":"+s.role)
 		construct := strings.TrimPrefix(key, name(s.fn)+":")
 		ok, trivial, detail := c.judgeSink(s)
+		if !ok {
+			why := c.stateObjectSink(s)
+			if why == "" {
+				why = c.checkThroughFuncValue(s)
+			}
+			if why != "" {
+				c.R.Infof(rule, name(s.fn), construct, c.IPos(s.instr), "not decided for this shape: "+s.desc+" — "+why)
+				continue
+			}
+		}
 		o := reportObl(rule, name(s.fn), construct, c.IPos(s.instr), s.desc, "ok")
 		o.Trivial = trivial
 		if !ok {
@@ -1292,4 +1308,88 @@ func (c *Ctx) ruleCodeUnits(rule string, in func(*ssa.Function) bool, decodedFie
 	}
 	c.R.Infof(rule, "-", "scan", "-", fmt.Sprintf("sizes, bounds and offsets that depend on the length of a UTF-16-decoded string: %d", n))
 	return n
+}
+
+// stateObjectSink: the quantities of the sink are fields of a state object of an
+// unexported library type that the function receives (a small reader/decoder
+// type whose methods share the remaining length, the element size, ...). The
+// relation between such fields is established by the code that builds and
+// drives the object, not in the method that uses them; the dominating-check
+// rule does not see it.
+func (c *Ctx) stateObjectSink(s *sink) string {
+	if s.fn.Object() != nil && s.fn.Object().Exported() && s.fn.Signature.Recv() == nil {
+		return ""
+	}
+	why := ""
+	any := false
+	for _, subj := range s.subjects {
+		if subj == nil {
+			continue
+		}
+		for v := range c.sliceOfLocal(subj) {
+			var base ssa.Value
+			switch x := v.(type) {
+			case *ssa.FieldAddr:
+				base = x.X
+			case *ssa.Field:
+				base = x.X
+			default:
+				continue
+			}
+			p, isP := ir.RootOf(base).(*ssa.Parameter)
+			if !isP || p.Parent() != s.fn {
+				continue
+			}
+			t := p.Type()
+			if pp, isPtr := t.Underlying().(*types.Pointer); isPtr {
+				t = pp.Elem()
+			}
+			n, isN := t.(*types.Named)
+			if !isN || n.Obj().Exported() || n.Obj().Pkg() == nil || !strings.HasPrefix(n.Obj().Pkg().Path(), M) {
+				continue
+			}
+			any = true
+			why = "the operands are fields of the state object " + p.Name() + " (" + n.Obj().Name() + "): their relation is established where the object is built and driven"
+		}
+	}
+	if !any {
+		return ""
+	}
+	return why
+}
+
+// sliceOfLocal: the intraprocedural backward slice of v (no descent into callers/callees).
+func (c *Ctx) sliceOfLocal(v ssa.Value) map[ssa.Value]bool {
+	sl := ir.NewSlicer(c.P.InModule, nil, 0)
+	return sl.Slice(v)
+}
+
+// checkThroughFuncValue: before the sink the function calls a function value
+// that is not fixed by the code (an entry of a table of checks) and yields a
+// verdict; the comparisons made inside it are not visible to the
+// dominating-check rule.
+func (c *Ctx) checkThroughFuncValue(s *sink) string {
+	why := ""
+	blk := s.instr.Block()
+	instrsOf(s.fn, func(i ssa.Instruction) {
+		call, ok := i.(*ssa.Call)
+		if !ok || why != "" || call.Call.IsInvoke() {
+			return
+		}
+		if _, isB := call.Call.Value.(*ssa.Builtin); isB {
+			return
+		}
+		if ir.Callee(call) != nil {
+			return
+		}
+		rs := call.Call.Signature().Results()
+		if rs.Len() == 0 || !(isBoolType(rs.At(0).Type()) || isErrorType(rs.At(rs.Len()-1).Type())) {
+			return
+		}
+		seen, _ := ir.Reach(s.fn, call.Block(), nil)
+		if seen[blk.Index] && call.Block() != blk {
+			why = "a check is made through a function value (call at " + c.IPos(call) + ") before this point"
+		}
+	})
+	return why
 }
